@@ -1,66 +1,189 @@
 #!/usr/bin/env python3
-"""Generate the schedule family as bin targets (src/bin/sched_<tier><nn>.rs).
-The family is fixed (compile time dominates, ~4.5 s per pair and ~9.5 s per triple of rustc time), so
-each tier is split over 16 bins that cargo builds in parallel.  Selection only decides WHICH
-schedules are compiled; every judgement about a run is made by TLC on the trace."""
-import itertools, os, random, sys
+"""Generate the schedule family.
 
-SYS = ["Sm", "Sr", "Wm", "Wr", "SmFh", "SmNh", "SoWr", "IdSrHo", "RAm", "RArWm", "RBmRAr", "ESm", "ESrWm", "HmFw"]
-PAR = ["PSm", "PWrSr", "PHoWm"]
-ALL = SYS + PAR
+1. src/sched_kinds.rs: the task alphabet.  A kind is a descriptor
+     (par, views [(comp, view kind)], id view, filter AST, resource views, entry views)
+   over components S, W, H and resources RA, RB; its body is derived mechanically from the
+   descriptor (read = log the value, write = order-sensitive update, entry views = look every entity
+   of the world up by identifier and apply the same rule).  Systematic part: every view kind on a
+   component, filters, resource views, every entry-view kind, views+entry views on one component,
+   filter + entry views, ParSystems; plus seeded random kinds.
+2. src/bin/sched_<tier><nn>.rs: schedules (pairs / triples / quads of kinds) split over 16 bins
+   (compile time: ~4.5 s per pair, ~9.5 s per triple of rustc time).
+Selection only decides WHICH kinds and schedules are compiled; every judgement about a run is made
+by TLC on the trace, from the descriptors."""
+import itertools, json, os, random, sys
 
-# declared access per kind: component/resource -> 'r' / 'w' (views and entry views merged)
-ACC = {
- "Sm": {"S": "w"}, "Sr": {"S": "r"}, "Wm": {"W": "w"}, "Wr": {"W": "r"}, "SmFh": {"S": "w"}, "SmNh": {"S": "w"},
- "SoWr": {"S": "w", "W": "r"}, "IdSrHo": {"S": "r", "H": "r"}, "RAm": {"RA": "w"}, "RArWm": {"RA": "r", "W": "w"},
- "RBmRAr": {"RB": "w", "RA": "r"}, "ESm": {"S": "w"}, "ESrWm": {"S": "r", "W": "w"}, "HmFw": {"H": "w"},
- "PSm": {"S": "w"}, "PWrSr": {"W": "r", "S": "r"}, "PHoWm": {"H": "w", "W": "w", "RB": "r"},
-}
+COMPS = ["S", "W", "H"]
+RES = ["RA", "RB"]
+VK = ["ref", "mut", "optref", "optmut"]
+
+def K(views=(), filt=("none",), res=(), entry=(), par=False, idv=False):
+    return {"views": list(views), "filter": list(filt), "res": list(res), "entry": list(entry), "par": par, "id": idv}
+
+def kinds():
+    rnd = random.Random(11)
+    ks = []
+    for c in COMPS:                                   # A: every view kind on every component
+        for k in VK:
+            ks.append(K(views=[(c, k)]))
+    ks += [K(views=[("S", "mut")], filt=["has", "H"]),           # B: filters
+           K(views=[("S", "mut")], filt=["not", ["has", "H"]]),
+           K(views=[("H", "mut")], filt=["has", "W"]),
+           K(views=[("W", "ref")], filt=["or", ["has", "S"], ["not", ["has", "H"]]]),
+           K(views=[("W", "optmut")], filt=["and", ["has", "S"], ["has", "H"]])]
+    ks += [K(views=[("S", "optmut"), ("W", "ref")]),             # C: two / three views
+           K(views=[("S", "ref"), ("H", "optref")], idv=True),
+           K(views=[("W", "mut"), ("H", "optmut")]),
+           K(views=[("H", "ref"), ("S", "ref"), ("W", "optref")]),
+           K(views=[("S", "mut"), ("W", "mut")], filt=["not", ["has", "H"]])]
+    ks += [K(res=[("RA", "mut")]),                               # D: resources
+           K(views=[("W", "mut")], res=[("RA", "ref")]),
+           K(res=[("RB", "mut"), ("RA", "ref")]),
+           K(views=[("S", "ref")], res=[("RB", "ref")])]
+    for k in VK:                                                 # E: entry views
+        ks.append(K(entry=[("S", k)]))
+    ks += [K(views=[("W", "mut")], entry=[("S", "ref")]),
+           K(views=[("S", "optref")], entry=[("S", "optref")]),          # same component, shared
+           K(views=[("W", "ref")], entry=[("W", "ref")]),
+           K(views=[("W", "ref")], filt=["has", "H"], entry=[("S", "mut")]),   # filter + entry views
+           K(views=[("H", "optmut")], filt=["not", ["has", "S"]], entry=[("W", "optmut")]),
+           K(views=[("S", "ref")], entry=[("W", "mut"), ("H", "optref")], res=[("RA", "ref")])]
+    ks += [K(views=[("S", "mut")], par=True),                    # F: ParSystems
+           K(views=[("W", "ref"), ("S", "ref")], par=True),
+           K(views=[("H", "optmut"), ("W", "mut")], res=[("RB", "ref")], par=True),
+           K(views=[("S", "optref")], filt=["has", "W"], entry=[("H", "mut")], par=True)]
+    return ks
+
+def name(i):
+    return "K%02d" % i
+
+def claim(vk):
+    return {"ref": "r", "optref": "r", "mut": "w", "optmut": "w"}[vk]
+
+def access(k):
+    a = {}
+    for c, vk in k["views"] + k["entry"] + k["res"]:
+        m = claim(vk)
+        a[c] = "w" if (a.get(c) == "w" or m == "w") else "r"
+    return a
+
 def conflict(a, b):
-    for k, m in ACC[a].items():
-        if k in ACC[b] and (m == "w" or ACC[b][k] == "w"):
-            return True
-    return False
+    A, B = access(a), access(b)
+    return any(c in B and (m == "w" or B[c] == "w") for c, m in A.items())
 
-def item(k):
-    return ("P(%s)" if k in PAR else "S(%s)") % k
+def ty(c, k, lt="'a "):
+    return {"ref": "&%s%s" % (lt, c), "mut": "&%smut %s" % (lt, c), "optref": "Option<&%s%s>" % (lt, c),
+            "optmut": "Option<&%smut %s>" % (lt, c)}[k]
 
-def family(tier):
+def filt_ty(f):
+    t = f[0]
+    if t == "none": return "filter::None"
+    if t == "has": return "filter::Has<%s>" % f[1]
+    if t == "not": return "filter::Not<%s>" % filt_ty(f[1])
+    if t == "and": return "filter::And<%s, %s>" % (filt_ty(f[1]), filt_ty(f[2]))
+    if t == "or": return "filter::Or<%s, %s>" % (filt_ty(f[1]), filt_ty(f[2]))
+    raise ValueError(f)
+
+def acc_code(var, vk, par):
+    if vk == "ref": return "rd(t, %s);" % var
+    if vk == "mut": return "wr(t, %s);" % var
+    if vk == "optref": return "if let Some(y) = %s { rd(t, y); }" % var
+    if vk == "optmut": return "if let Some(y) = %s { wr(t, y); }" % var
+
+def kind_src(i, k):
+    views = ", ".join((["entity::Identifier"] if k["id"] else []) + [ty(c, vk) for c, vk in k["views"]])
+    res = ", ".join(ty(r, vk) for r, vk in k["res"])
+    entry = ", ".join(ty(c, vk) for c, vk in k["entry"])
+    sub = ", ".join(ty(c, vk, "") for c, vk in k["entry"])
+    body = []
+    if k["res"]:
+        body.append("let result!(%s) = q.resources;" % ", ".join("r%d" % j for j in range(len(k["res"]))))
+        for j, (r, vk) in enumerate(k["res"]):
+            body.append(acc_code("r%d" % j, vk, False))
+    pat = ", ".join((["_id"] if k["id"] else []) + ["x%d" % j for j in range(len(k["views"]))])
+    inner = " ".join(acc_code("x%d" % j, vk, k["par"]) for j, (c, vk) in enumerate(k["views"]))
+    if k["par"]:
+        body.append("q.iter.for_each(|result!(%s)| { %s });" % (pat, inner))
+    else:
+        body.append("for result!(%s) in q.iter { %s }" % (pat, inner))
+    if k["entry"]:
+        spat = ", ".join("e%d" % j for j in range(len(k["entry"])))
+        sinner = " ".join(acc_code("e%d" % j, vk, False) for j, (c, vk) in enumerate(k["entry"]))
+        body.append("for id in ids.iter() { if let Some(mut e) = q.entries.entry(*id) { if let Some(result!(%s)) = e.query(Query::<Views!(%s)>::new()) { %s } } }" % (spat, sub, sinner))
+    mac = "par_system" if k["par"] else "system"
+    return "%s!(%s, views = Views!(%s), filter = %s, res = Views!(%s), entry = Views!(%s),\n    |t, ids, q| { %s });\n" % (
+        mac, name(i), views, filt_ty(k["filter"]), res, entry, " ".join(body))
+
+def descriptor(i, k):
+    d = {"k": name(i), "par": k["par"], "id": k["id"], "filter": k["filter"],
+         "views": {c: "none" for c in COMPS}, "entry": {c: "none" for c in COMPS}, "res": {r: "none" for r in RES}}
+    for c, vk in k["views"]: d["views"][c] = vk
+    for c, vk in k["entry"]: d["entry"][c] = vk
+    for r, vk in k["res"]: d["res"][r] = vk
+    return d
+
+def gen_kinds(path):
+    ks = kinds()
+    w = ["// @generated by tools/gen_sched.py - do not edit\n#![allow(unused_variables, unused_mut)]\n",
+         "use crate::comps::*;\nuse crate::sched::{rd, wr};\nuse crate::{system, par_system};\n",
+         "use brood::{entity, query::{filter, result, Result, Views}, registry, system::{ParSystem, System}, Query};\n",
+         "use rayon::iter::ParallelIterator;\nuse serde_json::Value;\n\n"]
+    for i, k in enumerate(ks):
+        w.append(kind_src(i, k))
+    w.append("\npub fn descriptor(kind: &str) -> Value {\n    let s = match kind {\n")
+    for i, k in enumerate(ks):
+        w.append("        \"%s\" => r#\"%s\"#,\n" % (name(i), json.dumps(descriptor(i, k))))
+    w.append("        _ => panic!(\"harness: unknown kind {kind}\"),\n    };\n    serde_json::from_str(s).unwrap()\n}\n")
+    open(path, "w").write("".join(w))
+    return ks
+
+def item(i, k):
+    return ("P(%s)" if k["par"] else "S(%s)") % name(i)
+
+def family(tier, ks):
     rnd = random.Random(20260926)
-    pairs = list(itertools.product(ALL, ALL))
-    triples = []
-    for a, b, c in itertools.product(ALL, ALL, ALL):
-        # two tasks that share a stage followed by one that conflicts with one of them (the shape in
-        # which the run-time "add-on" decision matters), or a conflicting middle task
-        if not conflict(a, b) and (conflict(a, c) != conflict(b, c)):
-            triples.append((a, b, c))
-        elif conflict(a, b) and not conflict(b, c) and not conflict(a, c):
-            triples.append((a, b, c))
+    n = len(ks)
+    idx = list(range(n))
+    pairs = list(itertools.product(idx, idx))
     rnd.shuffle(pairs)
+    # half of the pairs statically conflicting, half not
+    pc = [p for p in pairs if conflict(ks[p[0]], ks[p[1]])]
+    pn = [p for p in pairs if not conflict(ks[p[0]], ks[p[1]])]
+    triples = []
+    for a, b, c in itertools.product(idx, idx, idx):
+        ab, ac, bc = conflict(ks[a], ks[b]), conflict(ks[a], ks[c]), conflict(ks[b], ks[c])
+        # two tasks sharing a stage followed by one that conflicts with exactly one of them (where the
+        # run-time add-on decision matters); three independent tasks; a conflicting middle task
+        if (not ab and ac != bc) or (not ab and not ac and not bc) or (ab and not bc and not ac):
+            triples.append((a, b, c))
     rnd.shuffle(triples)
-    must = [("Wm", "Sr", "Sm"), ("Sm", "Wm", "Sr"), ("SmFh", "SmNh", "Sr"), ("RAm", "Sr", "RArWm"), ("ESm", "Wr", "Sr"), ("PSm", "Wr", "PWrSr")]
     quads = []
     if tier == "quick":
-        pairs = pairs[:88]
-        triples = must + [t for t in triples if t not in must][:42]
+        pairs = pc[:40] + pn[:48]
+        triples = triples[:48]
     else:
-        triples = must + [t for t in triples if t not in must][:330]
-        allq = [q for q in itertools.product(ALL, repeat=4) if not conflict(q[0], q[1]) and conflict(q[1], q[2]) and not conflict(q[2], q[3])]
+        pairs = pc[:300] + pn[:300]
+        triples = triples[:340]
+        allq = [q for q in itertools.product(idx, repeat=4)
+                if not conflict(ks[q[0]], ks[q[1]]) and conflict(ks[q[1]], ks[q[2]]) and not conflict(ks[q[2]], ks[q[3]])]
         rnd.shuffle(allq)
         quads = allq[:16]
-    cases = [("p%03d" % i, p) for i, p in enumerate(pairs)] + [("t%03d" % i, t) for i, t in enumerate(triples)] + [("q%03d" % i, q) for i, q in enumerate(quads)]
-    return cases
+    return [("p%03d" % i, p) for i, p in enumerate(pairs)] + [("t%03d" % i, t) for i, t in enumerate(triples)] + \
+           [("q%03d" % i, q) for i, q in enumerate(quads)]
 
 def cost(tasks):
     return {2: 4.5, 3: 9.5, 4: 19.0}[len(tasks)]
 
-def main(tier, outdir, nbins=16):
-    cases = family(tier)
+def main(tier, srcdir, nbins=16):
+    ks = gen_kinds(os.path.join(srcdir, "sched_kinds.rs"))
+    outdir = os.path.join(srcdir, "bin")
+    cases = family(tier, ks)
     bins = [[] for _ in range(nbins)]
     load = [0.0] * nbins
-    for name, tasks in sorted(cases, key=lambda c: -cost(c[1])):
+    for nm, tasks in sorted(cases, key=lambda c: -cost(c[1])):
         i = load.index(min(load))
-        bins[i].append((name, tasks))
+        bins[i].append((nm, tasks))
         load[i] += cost(tasks)
     tag = tier[0]
     for f in os.listdir(outdir):
@@ -68,8 +191,8 @@ def main(tier, outdir, nbins=16):
             os.remove(os.path.join(outdir, f))
     for i, b in enumerate(bins):
         body = []
-        for name, tasks in sorted(b):
-            body.append('    if want("%s") { sched_case!(out, "%s", presets, pools, 400; %s); }' % (name, name, ", ".join(item(k) for k in tasks)))
+        for nm, tasks in sorted(b):
+            body.append('    if want("%s") { sched_case!(out, "%s", presets, pools, 400; %s); }' % (nm, nm, ", ".join(item(k, ks[k]) for k in tasks)))
         src = '''// @generated by tools/gen_sched.py (tier %s, bin %d) - do not edit
 use brood_verif_harness::sched::*;
 use brood_verif_harness::sched_case;
@@ -87,7 +210,7 @@ fn main() {
 }
 ''' % (tier, i, "\n".join(body))
         open(os.path.join(outdir, "sched_%s%02d.rs" % (tag, i)), "w").write(src)
-    print("%s: %d cases, est. max bin %.0fs" % (tier, len(cases), max(load)))
+    print("%s: %d kinds, %d cases, est. max bin %.0fs" % (tier, len(ks), len(cases), max(load)))
 
 if __name__ == "__main__":
     main(sys.argv[1], sys.argv[2])
